@@ -58,6 +58,8 @@ def specCell : View ν α → List Nat → Option Cell
   | .tensor id t, idx => some (id, ravel (lens t.shape) idx)
   | .matrix id m _ _, idx => some (id, ravel [m.rows, m.columns] idx)
   | .matrixOf s _ _, idx => s.specCell idx
+  | .mrange s rows columns, idx => s.specCell (rangeCoords idx [rows, columns])
+  | .mreverse s rows columns, idx => s.specCell (reverseCoords idx (lens s.shape) [rows, columns])
   | .tmap s, idx => s.specCell idx
   | .range s rs, idx => s.specCell (rangeCoords idx rs)
   | .mask s ms, idx => s.specCell (maskCoords idx ms)
@@ -138,6 +140,8 @@ def WF : View ν α → Prop
     t.data.length ≤ usizeMax
   | .matrix _ m r c => m.Inv ∧ r ≠ c ∧ m.data.length ≤ usizeMax
   | .matrixOf s r c => s.WF ∧ s.shape.length = 2 ∧ r ≠ c
+  | .mrange s rows columns => s.WF ∧ s.shape.length = 2 ∧ RangesOK s.shape [rows, columns]
+  | .mreverse s _ _ => s.WF ∧ s.shape.length = 2
   | .tmap s => s.WF
   | .range s rs => s.WF ∧ RangesOK s.shape rs
   | .mask s ms => s.WF ∧ MasksOK s.shape ms
